@@ -51,7 +51,15 @@ def main():
         conf["demo_changed"] = {"rc": d1.returncode, "tail": (d1.stdout + d1.stderr)[-300:]}
         if run_suite:
             t0 = time.time()
-            t = subprocess.run("/venv/bin/python -m pytest -q -p no:cacheprovider --timeout=900 perception_eval/test 2>&1 | tail -1", shell=True, cwd=wt, env=env, capture_output=True, text=True, timeout=3600)
+            # (the suite's visualisation tests leave ~100 MB per run in the temp directory: give it one of its own and remove it)
+            import shutil
+            import tempfile
+
+            suite_tmp = tempfile.mkdtemp(prefix="suite-tmp-")
+            try:
+                t = subprocess.run("/venv/bin/python -m pytest -q -p no:cacheprovider --timeout=900 perception_eval/test 2>&1 | tail -1", shell=True, cwd=wt, env=dict(env, TMPDIR=suite_tmp), capture_output=True, text=True, timeout=3600)
+            finally:
+                shutil.rmtree(suite_tmp, ignore_errors=True)
             conf["suite_with_change"] = t.stdout.strip()[-200:]
             conf["suite_wall_s"] = round(time.time() - t0)
         conf["checks"] = {}
